@@ -92,7 +92,9 @@ CHECKS = {
         "explicit pushes); invariants SubCap, Growth (expansions = max(0, ceil(I/est)-1) on push-free histories), TotalIsCalls and action property "
         "DupInsertsNothing checked by TLC; every generated transition (add new/duplicate/forced, push, export+load through each channel and continuing "
         "afterwards) executed on ExpandingBloomFilter with clauses stated over the code's own pre-add answers and its exported bytes.",
-        note="est_elements 1..3 with the real geometries these give, 4 keys, table-driven hash functions (false positives are frequent).",
+        note="est_elements 1..3 with the real geometries these give, 4 keys, table-driven hash functions (false positives are frequent). Thorough tier, extra "
+        "design-level evidence: spec/ExpandingProof.tla, a TLAPS proof of the capacity rule (no filter above est_elements, growth only when the newest is full) "
+        "for arbitrary est_elements and unbounded histories.",
         design="6 (C09)", technique=TECH),
     "C10": dict(
         category="model_checking",
